@@ -249,7 +249,213 @@ theorem dead_holder_released (s : Srv) (c d : Nat) (hk : s.key = some (.ph c)) (
       (gsteps s { id := d } 7).1.loads = s.loads + 1 := by
   simp [gsteps, gstep, gstepLive, hk, hdead, delkey, acquire]
 
-/-! ### 5. script facts and non-vacuity -/
+/-! ### 5. waiters do not miss the wake-up (register BEFORE read) -/
+
+/-- what a Get knows is still true unless it has been woken: between its read of a placeholder
+and its liveness check (`checkHolder`), and while parked (`waiting`), an un-woken Get's key
+still holds the placeholder it read and (parked, id channel un-woken) the holder's liveness key
+still exists. A Get that holds the lock has been woken by its own acquisition. This needs the
+order `wait := c.register(key)` BEFORE `DoCache GET key`: with the registration after the read, a
+write between the two would leave `wKey = false` with a changed key. -/
+def WG (srv : Srv) (g : G) : Prop :=
+  (∀ i, g.pc = .checkHolder i → g.wKey = false → srv.key = some (.ph i)) ∧
+  (∀ i, g.pc = .waiting i → (g.wKey = false → srv.key = some (.ph i)) ∧ (g.wId = false → i ∈ srv.alive)) ∧
+  (g.pc = .loading → g.wKey = true) ∧ (g.pc = .releasing → g.wKey = true) ∧ (∀ v, g.pc = .storing v → g.wKey = true)
+
+def WInv (s : Sys) : Prop := ∀ g ∈ s.gs, WG s.srv g
+
+private theorem keepalive_alive (t : Srv) (d j : Nat) (h : j ∈ t.alive) : j ∈ (keepalive t d).alive := by
+  unfold keepalive; split
+  · exact h
+  · simp only; split
+    · exact h
+    · exact List.mem_cons_of_mem _ h
+
+/-- the stepping Get itself (with the wake flag its own write of the key sets) -/
+theorem wg_own (s : Srv) (g : G) (load : Option Val) (h : WG s g) :
+    WG (gstep s g load).1
+      (if (gstep s g load).1.key = s.key then (gstep s g load).2 else { (gstep s g load).2 with wKey := true }) := by
+  obtain ⟨id, pc, wk, wi, canc⟩ := g
+  obtain ⟨key, alive, started, seen, loads⟩ := s
+  simp only [WG] at *
+  cases canc <;> cases pc <;> simp only [gstep, gstepLive, gstepCancelled, Bool.false_eq_true, if_false, if_true]
+  all_goals (try (cases load))
+  all_goals (rcases key with _ | (_ | _))
+  all_goals (try simp only [acquire, keepalive_key])
+  all_goals (repeat' split)
+  all_goals simp_all [setkey, delkey]
+
+/-- a step only adds liveness keys -/
+private theorem gstep_alive (s : Srv) (g : G) (load : Option Val) (j : Nat) (h : j ∈ s.alive) :
+    j ∈ (gstep s g load).1.alive := by
+  obtain ⟨id, pc, wk, wi, canc⟩ := g
+  have hk := keepalive_alive s id j h
+  cases canc <;> cases pc <;> simp only [gstep, gstepLive, gstepCancelled, Bool.false_eq_true, if_false, if_true]
+  all_goals (try (cases load))
+  all_goals (repeat' split)
+  all_goals (first | exact h | exact hk | simp_all)
+
+private theorem wg_frame (s s' : Srv) (x : G) (h : WG s x) (hk : s'.key = s.key)
+    (ha : ∀ j, j ∈ s.alive → j ∈ s'.alive) : WG s' x := by
+  obtain ⟨h1, h2, h3⟩ := h
+  refine ⟨fun i hp hw => hk ▸ h1 i hp hw, fun i hp => ⟨fun hw => hk ▸ (h2 i hp).1 hw, fun hw => ha i ((h2 i hp).2 hw)⟩, h3⟩
+
+private theorem wg_woken (s s' : Srv) (x : G) (h : WG s x) (ha : ∀ j, j ∈ s.alive → j ∈ s'.alive) :
+    WG s' { x with wKey := true } := by
+  obtain ⟨_, h2, _⟩ := h
+  refine ⟨fun i _ hw => by simp at hw, fun i hp => ⟨fun hw => by simp at hw, fun hw => ha i ((h2 i hp).2 hw)⟩,
+    fun _ => rfl, fun _ => rfl, fun _ _ => rfl⟩
+
+def wid (i : Nat) (g : G) : G :=
+  match g.pc with
+  | .waiting j => if i = j then { g with wId := true } else g
+  | _ => g
+
+private theorem wg_wid (s : Srv) (i : Nat) (x : G) (h : WG s x) : WG s (wid i x) := by
+  obtain ⟨id, pc, wk, wi, canc⟩ := x
+  simp only [WG, wid] at *
+  cases pc <;> simp_all
+  split <;> simp_all
+
+/-- the liveness key `i` disappears: the Gets parked on `i` are woken, the others never relied on it -/
+private theorem wg_death (s : Srv) (i : Nat) (x : G) (h : WG s x) (hi : i ∈ s.alive) :
+    WG { s with alive := s.alive.filter (· ≠ i) } (wid i x) := by
+  obtain ⟨id, pc, wk, wi, canc⟩ := x
+  simp only [WG, wid] at *
+  cases pc <;> simp_all
+  split <;> simp_all
+  rename_i hne
+  exact fun _ e => hne e.symm
+
+private theorem wg_death_absent (s : Srv) (i : Nat) (x : G) (h : WG s x) (hi : i ∉ s.alive) :
+    WG { s with alive := s.alive.filter (· ≠ i) } x := by
+  obtain ⟨h1, h2, h3⟩ := h
+  refine ⟨h1, fun j hp => ⟨(h2 j hp).1, fun hw => ?_⟩, h3⟩
+  have hj := (h2 j hp).2 hw
+  simp only [List.mem_filter, decide_eq_true_eq]
+  exact ⟨hj, fun e => hi (e ▸ hj)⟩
+
+private theorem mem_wakeKey' {gs : List G} {g' : G} (h : g' ∈ wakeKey gs) : ∃ g ∈ gs, g' = { g with wKey := true } := by
+  simp only [wakeKey, List.mem_map] at h
+  obtain ⟨g, hg, rfl⟩ := h
+  exact ⟨g, hg, rfl⟩
+
+private theorem mem_wakeId' {i : Nat} {gs : List G} {g' : G} (h : g' ∈ wakeId i gs) : ∃ g ∈ gs, g' = wid i g := by
+  simp only [wakeId, List.mem_map] at h
+  obtain ⟨g, hg, rfl⟩ := h
+  exact ⟨g, hg, rfl⟩
+
+/-- WAITERS (cache-aside): for EVERY event the invariant is preserved — in particular a parked
+Get that has not been woken still waits for the placeholder of a holder whose liveness key
+exists: no wake-up (holder's result, release, Del, expiry, holder death) is ever missed -/
+theorem waiter_not_lost (s : Sys) (e : Ev) (inv : WInv s) : WInv (next s e) := by
+  cases e with
+  | newGet id =>
+    intro g hg
+    simp only [next, List.mem_append, List.mem_singleton] at hg
+    rcases hg with hg | hg
+    · exact inv g hg
+    · subst hg; simp [WG]
+  | cancel i =>
+    simp only [next]
+    cases hgi : s.gs[i]? with
+    | none => exact inv
+    | some g =>
+      intro x hx
+      rcases List.mem_or_eq_of_mem_set hx with h | h
+      · exact inv x h
+      · subst h
+        have := inv g (List.mem_of_getElem? hgi)
+        exact this
+  | del =>
+    intro x hx
+    simp only [next] at hx ⊢
+    by_cases hk : s.srv.key = none
+    · rw [if_pos hk] at hx
+      exact wg_frame s.srv _ x (inv x hx) (by simp [hk]) (fun _ h => h)
+    · rw [if_neg hk] at hx
+      obtain ⟨g, hg, rfl⟩ := mem_wakeKey' hx
+      exact wg_woken s.srv _ g (inv g hg) (fun _ h => h)
+  | expire =>
+    intro x hx
+    simp only [next] at hx ⊢
+    by_cases hk : s.srv.key = none
+    · rw [if_pos hk] at hx
+      exact wg_frame s.srv _ x (inv x hx) (by simp [hk]) (fun _ h => h)
+    · rw [if_neg hk] at hx
+      obtain ⟨g, hg, rfl⟩ := mem_wakeKey' hx
+      exact wg_woken s.srv _ g (inv g hg) (fun _ h => h)
+  | put v =>
+    intro x hx
+    simp only [next] at hx ⊢
+    obtain ⟨g, hg, rfl⟩ := mem_wakeKey' hx
+    exact wg_woken s.srv _ g (inv g hg) (fun _ h => h)
+  | death id =>
+    intro x hx
+    simp only [next] at hx ⊢
+    by_cases hi : id ∈ s.srv.alive
+    · rw [if_pos hi] at hx
+      obtain ⟨g, hg, rfl⟩ := mem_wakeId' hx
+      exact wg_death s.srv id g (inv g hg) hi
+    · rw [if_neg hi] at hx
+      exact wg_death_absent s.srv id x (inv x hx) hi
+  | refresh id =>
+    intro x hx
+    simp only [next] at hx ⊢
+    obtain ⟨g, hg, rfl⟩ := mem_wakeId' hx
+    apply wg_wid
+    refine wg_frame s.srv _ g (inv g hg) rfl ?_
+    intro j hj
+    show j ∈ (if id ∈ s.srv.alive then s.srv.alive else id :: s.srv.alive)
+    split
+    · exact hj
+    · exact List.mem_cons_of_mem _ hj
+  | step i load =>
+    simp only [next]
+    cases hgi : s.gs[i]? with
+    | none => exact inv
+    | some g =>
+      have hgm : g ∈ s.gs := List.mem_of_getElem? hgi
+      have hown := wg_own s.srv g load (inv g hgm)
+      have hal := gstep_alive s.srv g load
+      -- every element of the final list, before the id wake
+      have hmid : ∀ x ∈ (if (gstep s.srv g load).1.key = s.srv.key then setAt s.gs i (gstep s.srv g load).2
+                      else wakeKey (setAt s.gs i (gstep s.srv g load).2)), WG (gstep s.srv g load).1 x := by
+        by_cases hk : (gstep s.srv g load).1.key = s.srv.key
+        · rw [if_pos hk]
+          intro x hx
+          rcases List.mem_or_eq_of_mem_set hx with h | h
+          · exact wg_frame s.srv _ x (inv x h) hk hal
+          · subst h; simpa [hk] using hown
+        · rw [if_neg hk]
+          intro x hx
+          obtain ⟨y, hy, rfl⟩ := mem_wakeKey' hx
+          rcases List.mem_or_eq_of_mem_set hy with h | h
+          · exact wg_woken s.srv _ y (inv y h) hal
+          · subst h; simpa [hk] using hown
+      intro x hx
+      simp only at hx ⊢
+      by_cases ha : (gstep s.srv g load).1.alive = s.srv.alive
+      · rw [if_pos ha] at hx; exact hmid x hx
+      · rw [if_neg ha] at hx
+        obtain ⟨y, hy, rfl⟩ := mem_wakeId' hx
+        exact wg_wid _ _ y (hmid y hy)
+
+theorem waiter_not_lost_run (es : List Ev) : WInv (run {} es) := by
+  have h0 : WInv ({} : Sys) := fun g hg => by cases hg
+  generalize ({} : Sys) = s at h0
+  induction es generalizing s with
+  | nil => exact h0
+  | cons e r ih => exact ih _ (waiter_not_lost s e h0)
+
+/-- in plain words: in every reachable state a parked Get that no invalidation has reached is
+parked on the placeholder that is still in the key, of a holder whose liveness key still exists -/
+theorem parked_means_live_holder (es : List Ev) (g : G) (i : Nat) (hg : g ∈ (run {} es).gs)
+    (hp : g.pc = .waiting i) (hk : g.wKey = false) (hi : g.wId = false) :
+    (run {} es).srv.key = some (.ph i) ∧ i ∈ (run {} es).srv.alive :=
+  ⟨((waiter_not_lost_run es g hg).2.1 i hp).1 hk, ((waiter_not_lost_run es g hg).2.1 i hp).2 hi⟩
+
+/-! ### 6. script facts and non-vacuity -/
 theorem acquire_iff_absent (id : Nat) (k : Option Val) : (acquire id k).2 = none ↔ k = none := by
   cases k <;> simp [acquire]
 
